@@ -93,6 +93,26 @@ def field_events(rng, quick):
                 e["raised"] = True
                 e["error"] = repr(exc)[:100]
             evs.append(e)
+        # the field-level table of minimal polynomials (get_minimal_polynomials) must hold, for every element, the polynomial the element
+        # itself reports: an entry that differs is logged as one more Field event and judged by the specification like any other
+        if m <= 8:
+            try:
+                tab = F.get_minimal_polynomials()
+            except Exception:
+                tab = {}
+            for a in range(1, 1 << m):
+                if a not in tab:
+                    continue
+                x = F(a)
+                try:
+                    own = x.minimal_polynomial().value
+                except Exception:
+                    continue
+                if tab[a].value != own:
+                    tid += 1
+                    evs.append({"ev": "Field", "tid": tid, "m": m, "mod": md, "a": a, "b": 0, "e": 1, "add": a, "mul": 0, "pow": a, "inv": x.inverse().value,
+                                "trace": int(x.trace()), "conj": [c.value for c in x.conjugates()], "minpoly": tab[a].value, "evalp": -1, "evalv": 0,
+                                "raised": False, "via": "get_minimal_polynomials"})
     return evs
 
 
